@@ -86,9 +86,11 @@ class Builder:
         self.k += 1
         self.files[self.at(posixpath.dirname(rel), posixpath.basename(rel))] = M.lua_probe(self.k)
 
-    def case(self, argv, stdin=None, tag=""):
+    def case(self, argv, stdin=None, tag="", dirs=None):
         c = {"prop": PROP, "family": self.family, "tag": tag, "files": dict(self.files), "cwd": self.cwd,
              "argv": list(argv), "env": dict(self.env), "stdin": stdin}
+        if dirs:
+            c["dirs"] = list(dirs)
         return c
 
 
@@ -162,6 +164,11 @@ def fam_xdg(tier):
             b.lua("a/t1.lua")
             argv = (["-s"] if sflag else []) + [".", ] if n % 2 else (["-s"] if sflag else []) + ["a/t1.lua", "t0.lua"]
             cases.append(b.case(argv, tag=f"xdgmask{mask}:{'s' if sflag else '-'}:{'above' if above else ''}:{'unset' if unset else ''}"))
+            # the same search with every candidate directory present (those without a configuration
+            # file are empty directories): an empty directory is not a configuration
+            if sflag and not above:
+                cases.append(b.case(argv, tag=f"xdgmask{mask}:s:emptydirs:{'unset' if unset else ''}",
+                                    dirs=[loc.rstrip("/") for loc in XDG_LOCS if loc.rstrip("/") not in ("@xdg",)]))
     return cases
 
 
@@ -379,6 +386,7 @@ def seeded_case(rng, idx):
     for loc in XDG_LOCS:
         if rng.chance(1, 6):
             b.toml(None, path=loc + rng.pick(M.CONFIG_NAMES))
+    empty_dirs = [loc.rstrip("/") for loc in XDG_LOCS[1:] if rng.chance(1, 4)]
     # .editorconfig files (only indentation + quote keys; overrides are kept disjoint, see sanitise)
     ec_dirs = [d for d in dirs if rng.chance(1, 4)] + ([".."] if cwd != "proj" and rng.chance(1, 8) else [])
     for d in ec_dirs:
@@ -442,7 +450,7 @@ def seeded_case(rng, idx):
                 argv.append(p if p == "." else "./" + p)
             else:
                 argv.append(M.ROOT_TOKEN + "/" + cwd + ("" if p == "." else "/" + p))
-    c = b.case(argv, stdin, tag=f"seeded#{idx}")
+    c = b.case(argv, stdin, tag=f"seeded#{idx}", dirs=empty_dirs)
     return sanitise(c)
 
 
